@@ -492,6 +492,10 @@ func (db *MultiBucketBackend) PutObject(
 		return result, err
 	}
 
+	if meta == nil {
+		// the caller may pass nil; MergeMetadata adds to the map
+		meta = make(map[string]string)
+	}
 	err = gofakes3.MergeMetadata(db, bucketName, objectName, meta)
 	if err != nil {
 		return result, err
